@@ -142,11 +142,14 @@ fn observe(w: &World, nids: usize, tags: &[u32]) -> String {
     let mut ops = std::vec::Vec::new();
     for k in 0..nids {
         let idb = w.bytes(&w.ids[k]);
-        // every read goes through try_: a trapping getter becomes a sentinel (-1 / Unset / false) that diff and monitor flag
-        let lg = match c.try_ledger_of(&idb) { Ok(Ok(v)) => format!("{}", v), _ => "(-1)".to_string() };
-        let st = match c.try_state_of(&idb) { Ok(Ok(v)) => st_name(v), _ => "Unset" };
-        let fl = |r: Result<Result<bool, soroban_sdk::ConversionError>, Result<soroban_sdk::Error, soroban_sdk::InvokeError>>| b(matches!(r, Ok(Ok(true))));
-        let ov = format!("(OV {} {} {} {} {} {})", lg, st, fl(c.try_exists(&idb)), fl(c.try_pending(&idb)), fl(c.try_ready(&idb)), fl(c.try_done(&idb)));
+        // every read goes through try_: a trapping getter sets the trap flag of the view (the other fields are then
+        // placeholders); diff (model: never trapped) and monitor (view_coherent) both flag it
+        let mut trap = false;
+        let lg = match c.try_ledger_of(&idb) { Ok(Ok(v)) => format!("{}", v), _ => { trap = true; "(-1)".to_string() } };
+        let st = match c.try_state_of(&idb) { Ok(Ok(v)) => st_name(v), _ => { trap = true; "Unset" } };
+        let mut fl = |r: Result<Result<bool, soroban_sdk::ConversionError>, Result<soroban_sdk::Error, soroban_sdk::InvokeError>>| match r { Ok(Ok(v)) => b(v), _ => { trap = true; b(false) } };
+        let (f1, f2, f3, f4) = (fl(c.try_exists(&idb)), fl(c.try_pending(&idb)), fl(c.try_ready(&idb)), fl(c.try_done(&idb)));
+        let ov = format!("(OV {} {} {} {} {} {} {})", lg, st, f1, f2, f3, f4, b(trap));
         ops.push(pair(&n(k as u64), &ov));
     }
     let mut runs = std::vec::Vec::new();
@@ -157,7 +160,8 @@ fn observe(w: &World, nids: usize, tags: &[u32]) -> String {
 #[derive(Clone, Debug)]
 enum C { Schedule(usize, u32), Execute(usize), SetExecute(usize), Cancel(usize), SetMin(u32), Advance(u32) }
 
-struct Tr { w: World, descs: std::vec::Vec<Desc>, op_ids: std::vec::Vec<usize>, nids: usize, tags: std::vec::Vec<u32>, header: String, items: std::vec::Vec<String> }
+struct Tr { w: World, descs: std::vec::Vec<Desc>, op_ids: std::vec::Vec<usize>, nids: usize, tags: std::vec::Vec<u32>, now0: u32, tbl: std::vec::Vec<String>, obs0: String, items: std::vec::Vec<String>,
+            pair_labels: std::vec::Vec<&'static str>, cancelled: std::collections::HashSet<usize> }
 
 impl Tr {
     /// build a universe of operations; `shape` selects the predecessor structure
@@ -183,10 +187,30 @@ impl Tr {
             };
             let (target, f) = match rng.below(12) { 0 => (1u8, 0u8), 1 => (0, 1), 2 => (0, 2), _ => (0, 0) };
             let (target, f) = if shape == 0 || k == 0 { (0, 0) } else { (target, f) };
+            if shape == 9 {
+                // descriptors that differ from the first one in exactly ONE of the five id components, + an unscheduled predecessor
+                let z = [0u8; 32];
+                let d = match k {
+                    0 => Desc { target: 0, f: 0, tag: 1, pred: z, salt: 0 },
+                    1 => Desc { target: 1, f: 0, tag: 1, pred: z, salt: 0 },                 // target only
+                    2 => Desc { target: 0, f: 1, tag: 1, pred: z, salt: 0 },                 // function only (and it traps)
+                    3 => Desc { target: 0, f: 0, tag: 2, pred: z, salt: 0 },                 // arguments only
+                    4 => Desc { target: 0, f: 0, tag: 1, pred: w.ids[op_ids[3]], salt: 0 },  // predecessor only
+                    5 => Desc { target: 0, f: 0, tag: 1, pred: z, salt: 1 },                 // salt only
+                    _ => Desc { target: 0, f: 0, tag: 3, pred: raw, salt: 0 },               // predecessor never scheduled
+                };
+                let h = match c.try_hash(&w.operation(&d)) { Ok(Ok(v)) => to_arr(&v), _ => [0xEEu8; 32] };
+                let ix = w.id_ix(h) as usize;
+                let oc = w.op_coq(&d);
+                tbl.push(pair(&oc, &n(ix as u64)));
+                descs.push(d); op_ids.push(ix);
+                continue;
+            }
             // same (target, fn, args, pred) with a different salt now and then
             let d = if k > 0 && shape >= 2 && rng.chance(1, 5) {
+                // a twin of an earlier descriptor that differs in exactly one component
                 let mut d = descs[rng.below(k as u64) as usize].clone();
-                d.salt = d.salt.wrapping_add(1 + rng.below(2) as u8);
+                match rng.below(6) { 0 => d.target = 1 - d.target, 1 => d.f = (d.f + 1 + rng.below(2) as u8) % 3, 2 => d.tag = 1 + (d.tag % 4), _ => d.salt = d.salt.wrapping_add(1 + rng.below(2) as u8) }
                 d
             } else { Desc { target, f, tag: 1 + (k as u32 % 4), pred, salt: rng.below(2) as u8 } };
             // no duplicate descriptors in the universe
@@ -205,8 +229,17 @@ impl Tr {
         let idl: std::vec::Vec<String> = (0..nids).map(|k| n(k as u64)).collect();
         let tagl: std::vec::Vec<String> = tags.iter().map(|t| n(*t as u64)).collect();
         let obs0 = observe(&w, nids, &tags);
-        let header = format!("(Hdr {} {} {} {} {} {} {})", now0, list(&idl), list(&tagl), list(&tbl), UNSET_LEDGER, DONE_LEDGER, obs0);
-        Tr { w, descs, op_ids, nids, tags, header, items: std::vec![] }
+        let _ = (idl, tagl);
+        // which id components are exercised by a pair of descriptors differing in exactly that component
+        let mut pair_labels: std::vec::Vec<&'static str> = std::vec![];
+        for i in 0..descs.len() { for j in (i + 1)..descs.len() {
+            let (a, bq) = (&descs[i], &descs[j]);
+            let diff = [a.target != bq.target, a.f != bq.f, a.tag != bq.tag, a.pred != bq.pred, a.salt != bq.salt];
+            if diff.iter().filter(|x| **x).count() == 1 {
+                pair_labels.push(["pair/target-only", "pair/function-only", "pair/args-only", "pair/predecessor-only", "pair/salt-only"][diff.iter().position(|x| *x).unwrap()]);
+            }
+        } }
+        Tr { w, descs, op_ids, nids, tags, now0, tbl, obs0, items: std::vec![], pair_labels, cancelled: Default::default() }
     }
 
     fn call(&mut self, out: &mut Out, c: &C) -> bool {
@@ -214,6 +247,15 @@ impl Tr {
         let (text, lab, res): (String, &str, Option<Option<u64>>) = match c {
             C::Schedule(k, d) => {
                 let op = self.w.operation(&self.descs[*k]);
+                {
+                    let st = self.state_ix(self.op_ids[*k]);
+                    let m = self.min_delay();
+                    if st == 0 && m.map(|m| *d >= m).unwrap_or(false) && (self.w.now as u64 + *d as u64) > u32::MAX as u64 { out.label("situation/schedule-saturating"); }
+                    if st == 0 && m == Some(*d) { out.label("situation/schedule-at-min-delay"); }
+                    if st == 0 && m.map(|m| m > 0 && *d == m - 1).unwrap_or(false) { out.label("situation/schedule-below-min-delay"); }
+                    if st == 3 { out.label("situation/schedule-done-again"); }
+                    if st == 0 && self.cancelled.contains(&self.op_ids[*k]) { out.label("situation/schedule-after-cancel"); }
+                }
                 let r = cl.try_schedule(&op, d);
                 let oc = self.w.op_coq(&self.descs[*k].clone());
                 let res = match r { Ok(Ok(idb)) => Some(Some(self.w.id_ix(to_arr(&idb)))), _ => None };
@@ -222,6 +264,20 @@ impl Tr {
             C::Execute(k) => {
                 let d = self.descs[*k].clone();
                 let op = self.w.operation(&d);
+                {   // the situation this execute meets (labels of their own for the coverage gate)
+                    let st = self.state_ix(self.op_ids[*k]);
+                    let pix = self.w.ids.iter().position(|x| *x == d.pred).unwrap_or(0);
+                    let pst = self.state_ix(pix);
+                    let tgt_ok = d.target == 0 && d.f == 0;
+                    let pred_ok = pix == 0 || pst == 3;
+                    if st == 2 && !pred_ok { out.label("situation/execute-blocked-by-predecessor");
+                        if self.cancelled.contains(&pix) && pst == 0 { out.label("situation/execute-predecessor-cancelled"); }
+                        if !self.op_ids.contains(&pix) { out.label("situation/execute-predecessor-never-scheduled"); } }
+                    if st == 1 && self.ledger_of(self.op_ids[*k]) == self.w.now + 1 { out.label("situation/execute-one-ledger-early"); }
+                    if st == 2 && pred_ok && !tgt_ok { out.label("situation/execute-target-traps-rollback"); }
+                    if st == 2 && pred_ok && tgt_ok && pix != 0 { out.label("situation/execute-after-predecessor"); }
+                    if st == 3 { out.label("situation/execute-again"); }
+                }
                 let r = cl.try_execute(&op);
                 let oc = self.w.op_coq(&d);
                 let tgt_ok = d.target == 0 && d.f == 0;
@@ -236,7 +292,9 @@ impl Tr {
             }
             C::Cancel(ix) => {
                 let idb = self.w.bytes(&self.w.ids[*ix]);
+                if self.state_ix(*ix) == 3 { out.label("situation/cancel-done"); }
                 let r = cl.try_cancel(&idb);
+                if matches!(r, Ok(Ok(_))) { self.cancelled.insert(*ix); }
                 (format!("Cancel {}", n(*ix as u64)), "cancel", match r { Ok(Ok(_)) => Some(None), _ => None })
             }
             C::SetMin(d) => {
@@ -260,12 +318,27 @@ impl Tr {
         res.is_some()
     }
 
-    fn finish(self, out: &mut Out, desc: &str) {
+    fn finish(mut self, out: &mut Out, desc: &str) {
         let nn = self.items.len();
-        out.trace(desc, format!("({}, {})", self.header, list(&self.items)), nn);
+        // the id of every descriptor is measured again at the end of the trace (other ledger, other storage): a different
+        // value is added to the table, which then is no function any more (tbl_ok fails -> monitor failure)
+        let c = TlClient::new(&self.w.e, &self.w.tl);
+        for k in 0..self.descs.len() {
+            let d = self.descs[k].clone();
+            let h = match c.try_hash(&self.w.operation(&d)) { Ok(Ok(v)) => to_arr(&v), _ => [0xEEu8; 32] };
+            let ix = self.w.id_ix(h) as usize;
+            if ix != self.op_ids[k] { let oc = self.w.op_coq(&d); self.tbl.push(pair(&oc, &n(ix as u64))); }
+        }
+        for l in self.pair_labels.iter() { out.label(l); }
+        let idl: std::vec::Vec<String> = (0..self.nids).map(|k| n(k as u64)).collect();
+        let tagl: std::vec::Vec<String> = self.tags.iter().map(|t| n(*t as u64)).collect();
+        let header = format!("(Hdr {} {} {} {} {} {} {})", self.now0, list(&idl), list(&tagl), list(&self.tbl), UNSET_LEDGER, DONE_LEDGER, self.obs0);
+        out.trace(desc, format!("({}, {})", header, list(&self.items)), nn);
     }
 
     // ---- state the generator may read (adaptive generation) ----
+    /// 0 Unset, 1 Waiting, 2 Ready, 3 Done (Unset when the getter traps)
+    fn state_ix(&self, ix: usize) -> u8 { match TlClient::new(&self.w.e, &self.w.tl).try_state_of(&self.w.bytes(&self.w.ids[ix])) { Ok(Ok(OperationState::Waiting)) => 1, Ok(Ok(OperationState::Ready)) => 2, Ok(Ok(OperationState::Done)) => 3, _ => 0 } }
     fn ledger_of(&self, ix: usize) -> u32 { match TlClient::new(&self.w.e, &self.w.tl).try_ledger_of(&self.w.bytes(&self.w.ids[ix])) { Ok(Ok(v)) => v, _ => 0 } }
     fn min_delay(&self) -> Option<u32> { match TlClient::new(&self.w.e, &self.w.tl).try_min_delay() { Ok(Ok(v)) => Some(v), _ => None } }
 }
@@ -310,9 +383,9 @@ fn random_call0(rng: &mut Rng, tr: &Tr) -> C {
                 let r = *rng.pick(&pend);
                 let gap = r - tr.w.now;
                 // keep the ledger moderate unless the trace is about saturation
-                if gap > 100_000 && rng.chance(9, 10) { C::Advance(rng.below(4) as u32) }
+                if gap > 100_000 && rng.chance(9, 10) { C::Advance(1 + rng.below(3) as u32) }
                 else { match rng.below(4) { 0 => C::Advance(gap - 1), 1 | 2 => C::Advance(gap), _ => C::Advance(gap.saturating_add(1)) } }
-            } else if rng.chance(1, 5) { C::Advance(*rng.pick(&LONG_GAPS)) } else { C::Advance(rng.below(4) as u32) }
+            } else if rng.chance(1, 5) { C::Advance(*rng.pick(&LONG_GAPS)) } else { C::Advance(if rng.chance(1, 10) { 0 } else { 1 + rng.below(3) as u32 }) }
         }
     }
 }
@@ -351,6 +424,26 @@ fn main() {
             C::Advance(1_000_000), C::Execute(2), C::Cancel(tr.op_ids[0]), C::SetMin(u32::MAX), C::Schedule(0, u32::MAX - 1), C::Schedule(0, u32::MAX), C::Execute(0)];
         for c in script.iter() { tr.call(&mut out, c); }
         tr.finish(&mut out, "directed/saturation");
+    }
+
+    // 5. the five components of the id: descriptors differing in exactly one of target / function / arguments /
+    //    predecessor / salt get different ids and independent state; + an operation whose predecessor was never scheduled
+    for hc in 0..2usize {
+        let mut tr = Tr::new(&mut rng, 30 + hc as u32, 7, 9, hc);
+        let ids = tr.op_ids.clone();
+        let script = [C::SetMin(2), C::Schedule(0, 2), C::Schedule(1, 2), C::Schedule(2, 2), C::Schedule(3, 2), C::Schedule(4, 2), C::Schedule(5, 2), C::Schedule(6, 2),
+            C::Schedule(0, 2),                                           // the same descriptor again: same id, already scheduled
+            C::Advance(1), C::Execute(0),                                // one ledger early
+            C::Advance(1), C::Execute(0),                                // only the base operation becomes Done
+            C::Execute(1),                                               // target-only twin: still Ready, its (dead) target cannot be invoked
+            C::Execute(2), C::Execute(2),                                // function-only twin: target traps, everything rolls back, stays Ready
+            C::Execute(4),                                               // predecessor-only twin: blocked until the args-only twin ran
+            C::Execute(6), C::SetExecute(6),                             // predecessor never scheduled: never executable
+            C::Cancel(ids[1]),                                           // cancelling one twin leaves the others alone
+            C::Execute(3), C::Execute(4), C::Execute(5), C::SetExecute(2),
+            C::Cancel(ids[0]), C::Schedule(0, 2), C::Schedule(1, 2), C::Advance(2), C::Execute(1), C::Execute(0)];
+        for c in script.iter() { tr.call(&mut out, c); }
+        tr.finish(&mut out, &format!("directed/id-components-host{}", hc));
     }
 
     // 4. persistence: every kind of stored item (minimum delay, Waiting / Ready / Done marks, cancelled = absent)
